@@ -405,6 +405,48 @@ def load_program(rng, counters):
     return [["load-program", pre, overwrite], [list(p) for p in pairs]], tr, digest([]), False, True
 
 
+def copy_program(rng, counters):
+    """copy_expr_from into a fresh manager over equivalent containers: definitions, contents under later assignments, and
+    the dumped text of the receiving manager.  The second digest (middle field of the run digest) is the transcript with
+    every dump / task list SORTED: it tells "only the order differs" (open finding KF8) from any other difference."""
+    import xdeps
+    def data():
+        d = {"a": 1.5, "b": -2.0, "c": 0.5}
+        d.update({"k%d" % i: 0.0 for i in range(6)})
+        return d
+    m, m2 = xdeps.Manager(), xdeps.Manager()
+    d, d2 = data(), data()
+    r, r2 = m.ref(d, "r"), m2.ref(d2, "r")
+    order = rng.sample(range(6), rng.randrange(3, 7))
+    defs = []
+    for i in sorted(order):
+        srcs = ["a", "b", "c"] + ["k%d" % j for j in sorted(order) if j < i]
+        defs.append((i, rng.choice(["add", "mul", "mix"]), rng.choice(srcs), rng.choice(srcs)))
+    rng.shuffle(defs)          # creation order is free; reads go to lower indices only
+    for i, how, x, y in defs:
+        r["k%d" % i] = {"add": lambda: r[x] + r[y], "mul": lambda: r[x] * r[y], "mix": lambda: 3 * r[x] - r[y] ** 2}[how]()
+    tr, norm = [], []
+
+    def rec(tag, val, sortable=False):
+        tr.append([tag, val])
+        norm.append([tag, sorted(val) if sortable else val])
+    try:
+        m2.copy_expr_from(m, "r")
+        rec("copy", "ok")
+    except Exception as exc:
+        rec("copy", "E:" + type(exc).__name__)
+    rec("source-dump", [list(x) for x in m.dump()])
+    rec("dump", [list(x) for x in m2.dump()], True)
+    rec("tasks", [str(t) for t in m2.tasks], True)
+    for key, val in (("a", 3.0), ("b", 0.25), ("c", -1.0)):
+        for root in (r, r2):
+            root[key] = val
+        rec("set-" + key, [sorted((k, canon(v)) for k, v in d.items()), sorted((k, canon(v)) for k, v in d2.items())])
+    rec("dump-after", [list(x) for x in m2.dump()], True)
+    counters["copy_programs"] = counters.get("copy_programs", 0) + 1
+    return [["copy-program"], [list(x) for x in defs]], tr, digest([]) + ":" + digest(norm) + ":" + digest([]), False, True
+
+
 def run_shard(spec):
     rng = random.Random("C20:%s:corpus" % spec["seed"])      # identical corpus in every configuration
     mgrmon.install_run_events()
@@ -427,7 +469,8 @@ def run_shard(spec):
                         ("exotic-keys", max(20, n_hist // 4), exotic_key_program),
                         ("owner-readers", max(40, n_hist // 2), owner_reader_program),
                         ("late-readers", max(60, n_hist // 2), late_reader_program),
-                        ("load-programs", max(60, n_hist // 2), load_program)):
+                        ("load-programs", max(60, n_hist // 2), load_program),
+                        ("copy-programs", max(40, n_hist // 4), copy_program)):
         for i in range(n):
             sub = random.Random("C20:%s:%s:%d" % (spec["seed"], kind, i))     # per-program stream: robust to skips
             res = fn(sub, counters)
@@ -489,6 +532,12 @@ def merge(results, tier, seed):
             out["counters"]["programs_differing_only_in_the_sign_of_a_zero"] = \
                 out["counters"].get("programs_differing_only_in_the_sign_of_a_zero", 0) + 1
         if len({p[3] for _, p in row}) > 1:
+            if row[0][1][0] == "copy-programs" and kf.is_open("KF8", ID) and len({str(p[4]).split(":")[1] for _, p in row}) == 1:
+                # the transcripts with every dump / task list sorted are identical: only the ORDER of the receiving manager's
+                # definitions differs between hash seeds
+                out["known"].append(kf.known("KF8"))
+                out["counters"]["kf8_programs"] = out["counters"].get("kf8_programs", 0) + 1
+                continue
             flagged = any(p[5] for _, p in row)
             if flagged and kf.is_open("KF1", ID):
                 out["known"].append(kf.known("KF1"))
